@@ -149,7 +149,7 @@ CHECKS = {
         "Tokens: EVERY token sequence inside the bound over one spelling per class of token types parser.py can tell apart (plus compared values and lexer-error spellings) returns or raises CxxParseError with prefix '<file>:<existing line>: ' and a cause - so the except block itself never raises. "
         "Illegal characters: z3 shows that every code point outside the C++ basic source character set enters t_error at a token start and that only literal / comment / directive rules can contain one. "
         "Rejection: 54 rule-breaking constructs in 7 block contexts x 6 #line preambles (the reported file:line must be one a physical line has under a reference reading of the directives); truncation of 56 programs at every token boundary.",
-        "Bound: lexer n<=5 (quick) / 8 (thorough) code points; sequences <=2 tokens over the ~100-spelling reduced alphabet and <=3 over a 34-spelling core (thorough 3 / 3). Tokens are rendered blank/newline separated. BaseException and resource exhaustion are outside.",
+        "Bound: lexer n<=5 (quick) / 8 (thorough) code points; sequences <=2 tokens over the ~100-spelling reduced alphabet and <=3 over a 35-spelling core (thorough: 3 tokens, the third from the core; core 3). Tokens are rendered blank/newline separated. BaseException and resource exhaustion are outside.",
         "DESIGN.md 3/C06",
     ),
     "C15": (
